@@ -36,7 +36,7 @@ MEMORY_PROPS = {"C01", "C02", "C03", "C04", "C05", "C07", "C09", "C10", "C11", "
 
 
 # properties for which a leaked heap block requested by the crate itself is a violation
-BLOCK_LEAK_PROPS = {"C15", "C16"}
+BLOCK_LEAK_PROPS = {"C16"}
 
 
 def repo_path():
